@@ -53,6 +53,24 @@ async def main():
         for d, mode in layout.items():
             dirs[d] = sm.add_shared_directory(os.path.join(tmp, 'shares', d), share_mode=DirectoryShareMode(mode), users=['carol'] if mode == 'users' else None)
         await sm.scan()
+        # 0. two directories of the SAME share mode with different named users: the verdict is per directory, not per mode
+        with tempfile.TemporaryDirectory() as tmp2:
+            tmp2 = os.path.realpath(tmp2)
+            for d in ('for_carol', 'for_dave'):
+                os.makedirs(os.path.join(tmp2, 'shares', d))
+                with open(os.path.join(tmp2, 'shares', d, f'Tune {d}.mp3'), 'wb') as fh:
+                    fh.write(b'x' * 10)
+            c2 = make_client(tmp2)
+            for d, u in (('for_carol', 'carol'), ('for_dave', 'dave')):
+                c2.shares.add_shared_directory(os.path.join(tmp2, 'shares', d), share_mode=DirectoryShareMode('users'), users=[u])
+            await c2.shares.scan()
+            for user in ('carol', 'dave', 'mallory'):
+                vis, lck = c2.shares.query('tune', username=user)
+                got = sorted(i.filename for i in vis)
+                want = [f'Tune for_{user}.mp3'] if user in ('carol', 'dave') else []
+                if got != want or len(vis) + len(lck) != 2:
+                    return True, (f"two USERS directories (one for carol, one for dave): query('tune', username={user!r}) lists {got} as normal results "
+                                  f"and {sorted(i.filename for i in lck)} as locked"), {'user': user, 'scenario': 'two directories of one mode'}
         # 1. queries, replies, item lookups per user
         for user in USERS:
             vis, lck = sm.query('song', username=user)
